@@ -20,6 +20,8 @@ TRUSTED = ['CPython ast', 'tableau layout of the StabilizerState docstring', 'C0
 def check(run):
     repo = run.repo
     f, k = projk.guards_and_block(run, repo, K.PY_U, 'stabilizer_measure', signed=True)
+    from ..rules import rowclass
+    rowclass.check_priority(run, f, k)
     K.product_sites(run, f, floor=2)
     projk.check_decodes(run, f)
     projk.coin_and_probability(run, f, k)
@@ -50,6 +52,7 @@ def check(run):
     run.floor('R9.phase', 1)
     run.floor('R9.accum', 4)
     run.floor('R9.block', 1)
+    run.floor('R9.priority', 1)
     run.floor('R7a', 2)
     run.floor('R3.decode', 4)
     run.floor('R11.coin', 3)
